@@ -110,6 +110,12 @@ def last_admissible(parts, B, s):
     return j
 
 
+def arrival(r):
+    """Index of the call whose intake loop finds the request in `queue`: the call before which the caller
+    appended it, or - for a request posted by the consumer during call j - the next one."""
+    return r['j'] + 1 if r.get('late') else r['j']
+
+
 def completion_call(parts, j, s, n):
     """Index of the call in which a request (s, n) taken in at call j gets its last sample
     (None if the stream ends first)."""
@@ -149,7 +155,9 @@ class C05(Spec):
         'selected columns in order (the correspondence check compares the content of every delivered epoch)',
         'the harness evaluates round((t0 - prestim)*fs) and round((size + poststim + prestim)*fs) with the '
         "code's own expressions and feeds the integers to the model; Python round() itself is not modelled here (see C06)",
-        'single-threaded use: queue / removed_queue / source_complete are only changed between two send() calls',
+        'queue / removed_queue / source_complete are only changed between two send() calls or, for queue, by the target '
+        'callback while it is handed a batch (re-entrant append, model: Call.late); appends by another thread are covered '
+        'by the model and its theorems only (any test of them would depend on timing)',
     ]
     ASSUMPTIONS = [
         'request keys (t0, key) are pairwise distinct; one epoch length per extractor; epoch length >= 0',
@@ -164,7 +172,14 @@ class C05(Spec):
             'source_complete None / Event set before a random call, 1-D / 2-D / annotated input. boundary: one or two '
             'requests with chunk edges at every offset -2..+2 around epoch start and end, every admissible arrival call '
             'and every removal call. malformed: late (missed) requests, duplicate keys, removal before its request, mixed '
-            'epoch lengths. variant: a random history told differently - fs / times / sizes as int, NumPy scalars; stream dtype '
+            'epoch lengths. late: in a third of the random / variant / beyond-2^31 histories and in a boundary family the '
+            'consumer (target) appends 1-3 further requests to the queue while it is handed a batch - in a call where an epoch '
+            'is due (requests chain) or anywhere (then nothing is posted), the new epoch back-to-back with the one handed over, '
+            'starting with the next chunk, inside the look-back window, or further ahead, sometimes withdrawn again, sometimes '
+            'posted during the last call (it stays in the queue); chunk edges -2..+2 around the hand-over, source_complete None / '
+            'set before every call around it; demanded: every such request delivered exactly once with its samples, the callback '
+            'not before the queue is empty and every epoch handed over, nothing requested before the callback delivered after it. '
+            'variant: a random history told differently - fs / times / sizes as int, NumPy scalars; stream dtype '
             'float32/int16/int32/int64/uint16, strided or Fortran-ordered memory, 1-4 channels; arguments positional / only the '
             'non-default ones; no callback, no removed_queue; extra info entries, no metadata entry, per-request metadata keys '
             '(must not show up on another request\'s epoch); the consumer overwrites every delivered batch, the caller clears '
@@ -178,7 +193,9 @@ class C05(Spec):
     exhaustive_note = {
         'quick': '',
         'thorough': 'every composition of a 6-sample stream x every request (s, len) inside it x every admissible arrival '
-                    'call x every removal call (or none) x buffer 0/1/2/large',
+                    'call x every removal call (or none) x buffer 0/1/2/large; and x every second request (same length, start '
+                    'inside the look-back window of the next call .. end of stream) posted by the consumer on receipt of the '
+                    'first x source_complete None / set from the start / set after the hand-over x buffer 0/large',
     }
     PARALLEL = 16
 
@@ -206,7 +223,7 @@ class C05(Spec):
                 parts.insert(rng.randint(0, len(parts)), 0)
         return parts
 
-    def _random_case(self, rng, big, skip=0):
+    def _random_case(self, rng, big, skip=0, late=False):
         fs = rng.choice(FS_LIST) if rng.random() < 0.8 else rng.uniform(8000, 400000)
         N = rng.randint(30, 3000 if big else 400)
         nd = rng.choice(['1d', '2d', 'pd1', 'pd2'])
@@ -285,6 +302,65 @@ class C05(Spec):
         case['reqs'], case['rems'] = reqs, rems
         if rng.random() < 0.5 or skip:
             case['sc'] = rng.randint(0, len(parts))
+        if late:
+            self._add_late(rng, case)
+        return case
+
+    # -- requests posted by the consumer while it is handed a batch ------------------------------------------------
+    def _add_late(self, rng, case, count=None):
+        """A consumer that schedules further epochs on receipt of one: requests that `target` appends to `queue`
+        during call j (flag `late`).  j is drawn among the calls in which an epoch is due (the completion calls of the
+        requests made so far - so that requests chain), sometimes anywhere (nothing is posted when nothing is handed over);
+        the new epoch lies ahead of the data, inside the look-back window of call j + 1, or is back-to-back with the
+        one just delivered."""
+        parts, N, fs = case['parts'], case['N'], case['fs']
+        if len(parts) < 2 or case['kind'] == 'capture':
+            return case
+        B = buffer_samples(case)
+        skip = case.get('skip', 0)
+        bounds = bounds_of(parts)
+        removed = {rm['r'] for rm in case['rems']}
+        due = []                                    # (call, end sample) of the deliveries expected so far
+        for i, r in enumerate(case['reqs']):
+            s, n = conv(case, r)
+            c = completion_call(parts, arrival(r), s, n) if arrival(r) < len(parts) else None
+            if c is not None and i not in removed:
+                due.append((c, s + n))
+        taken = {(r['t0'], r.get('key')) for r in case['reqs']}
+        nreq = len(case['reqs'])
+        for k in range(count if count is not None else rng.choice([1, 1, 2, 3])):
+            if due and rng.random() < 0.85:
+                j, end = rng.choice(due)
+            else:
+                j, end = rng.randint(0, len(parts) - 1), None
+            lo = oldest_start(parts, B, j + 1) if j + 1 < len(parts) else bounds[-1]
+            style = rng.random()
+            if end is not None and style < 0.3:
+                target = end                                    # back-to-back with the epoch just handed over
+            elif style < 0.5:
+                target = bounds[j + 1]                          # starts with the next chunk
+            elif style < 0.7:
+                target = rng.randint(lo, max(lo, bounds[j + 1]))     # already in the look-back buffer
+            else:
+                target = rng.randint(bounds[j + 1], max(bounds[j + 1], N))
+            req = {'mid': 100 + nreq + k, 'key': f'c{k}', 'late': True, 'j': j}
+            if any('dur' in r for r in case['reqs']) or not case['epoch_size']:
+                req['dur'] = next((r['dur'] for r in case['reqs'] if 'dur' in r), 5 / fs)
+            req['t0'] = (skip + target + rng.choice([0, 0, 0.25, -0.25])) / fs + case['pre']
+            s, n = conv(case, req)
+            if s < lo or (s + n > N and rng.random() < 0.8) or (req['t0'], req['key']) in taken:
+                continue
+            taken.add((req['t0'], req['key']))
+            case['reqs'].append(req)
+            if j + 1 < len(parts):
+                c = completion_call(parts, j + 1, s, n)
+                if c is not None:
+                    if rng.random() < 0.15:                     # ... and withdrawn again
+                        # (in the very call that would take it in, or later)
+                        rj = j + 1 if rng.random() < 0.4 else rng.randint(j + 1, len(parts) - 1)
+                        case['rems'].append({'r': len(case['reqs']) - 1, 'j': rj})
+                    else:
+                        due.append((c, s + n))
         return case
 
     # -- hardening: other spellings of the same history, caller-side aliasing, several consumers ------------------
@@ -475,6 +551,42 @@ class C05(Spec):
                         rems = [] if rj is None else [{'r': 0, 'j': rj}]
                         sc = None if count % 2 else (count // 2) % (len(parts) + 1)
                         yield self._mk('boundary', fs, N, nd, parts, L / fs, 0, 0, B / fs, reqs, rems, sc)
+        # the consumer posts a second request when it is handed the first epoch: chunk edges around the first epoch's
+        # end (= the call of the hand-over), the second epoch back-to-back / on a later edge / inside the look-back /
+        # reaching into the last chunk; source_complete None or set before each call around the hand-over
+        count = 0
+        for d1 in deltas:
+            cuts = sorted({s, s + L + d1, 20, 25})
+            pts = [0] + cuts + [N]
+            parts = [b - a for a, b in zip(pts, pts[1:])]
+            c0 = completion_call(parts, 0, s, L)
+            for B in (0, 3, 100):
+                lo = oldest_start(parts, B, c0 + 1)
+                for s2 in sorted({s + L, s + L + d1, s + L + d1 + 1, 20, 22, 24, lo, s + 2}):
+                    if s2 < lo or s2 + L > N:
+                        continue
+                    c2 = completion_call(parts, c0 + 1, s2, L)
+                    for sc in (None, 0, c0, c0 + 1, c2, len(parts)):
+                        count += 1
+                        nd = ['1d', '2d', 'pd1', 'pd2'][count % 4]
+                        reqs = [{'t0': s / fs, 'key': 0, 'mid': 100, 'j': 0},
+                                {'t0': s2 / fs, 'key': 1, 'mid': 101, 'j': c0, 'late': True}]
+                        rems = []
+                        if count % 5 == 0:
+                            rems = [{'r': 1, 'j': [c0 + 1, c2, len(parts) - 1][count % 3]}]
+                        yield self._mk('boundary', fs, N, nd, parts, L / fs, 0, 0, B / fs, reqs, rems, sc)
+                # ... a third one on receipt of the second, and one posted during the last call (it stays in the queue)
+                reqs = [{'t0': s / fs, 'key': 0, 'mid': 100, 'j': 0},
+                        {'t0': (s + L) / fs, 'key': 1, 'mid': 101, 'j': c0, 'late': True}]
+                c2 = completion_call(parts, c0 + 1, s + L, L)
+                reqs.append({'t0': (s + 2 * L) / fs, 'key': 2, 'mid': 102, 'j': c2, 'late': True})
+                c3 = completion_call(parts, c2 + 1, s + 2 * L, L) if c2 + 1 < len(parts) else None
+                if c3 is not None:
+                    reqs.append({'t0': N / fs, 'key': 3, 'mid': 103, 'j': c3, 'late': True})
+                for sc in (None, 0, len(parts) - 1):
+                    count += 1
+                    yield self._mk('boundary', fs, N, ['1d', '2d', 'pd1', 'pd2'][count % 4], parts, L / fs, 0, 0,
+                                   B / fs, [dict(r) for r in reqs], [], sc)
         # prestim / poststim boundary: epoch [s - p, s + L + q)
         for p, q in itertools.product([0, 1, 2.5], [0, 1, 0.5]):
             for d0 in deltas:
@@ -565,17 +677,44 @@ class C05(Spec):
                                 rems = [] if rj is None else [{'r': 0, 'j': rj}]
                                 yield self._mk('exhaustive', fs, N, '1d', parts, esz, 0, 0, B / fs, reqs, rems, None)
 
+    def _exhaustive_late_cases(self):
+        """Every composition of a 6-sample stream x a first request (s, L) made before call 0 x a second one (s2, L)
+        posted by the consumer on receipt of the first x source_complete None / set from the start / set before the
+        call after the hand-over x buffer 0 / large."""
+        N, fs = 6, 1000.0
+        for mask in range(2 ** (N - 1)):
+            parts, run = [], 1
+            for b in range(N - 1):
+                if mask >> b & 1:
+                    parts.append(run)
+                    run = 1
+                else:
+                    run += 1
+            parts.append(run)
+            for L in range(1, 4):
+                for s in range(0, N - L + 1):
+                    c0 = completion_call(parts, 0, s, L)
+                    for B in (0, 50):
+                        lo = oldest_start(parts, B, c0 + 1) if c0 + 1 < len(parts) else N
+                        for s2 in range(lo, N + 1):
+                            if s2 == s or (s2 + L > N and s2 != N):
+                                continue
+                            for sc in (None, 0, c0 + 1):
+                                reqs = [{'t0': s / fs, 'key': 0, 'mid': 100, 'j': 0},
+                                        {'t0': s2 / fs, 'key': 1, 'mid': 101, 'j': c0, 'late': True}]
+                                yield self._mk('exhaustive', fs, N, '1d', parts, L / fs, 0, 0, B / fs, reqs, [], sc)
+
     def cases(self, rng, tier):
         quick = tier == 'quick'
         yield from self._boundary_cases(rng, tier)
         for i in range(5000 if quick else 40000):
-            yield self._random_case(rng, big=(i % 4 == 0))
+            yield self._random_case(rng, big=(i % 4 == 0), late=(i % 3 == 0))
         for i in range(2500 if quick else 20000):
-            yield self._decorate(rng, self._random_case(rng, big=(i % 4 == 0)))
+            yield self._decorate(rng, self._random_case(rng, big=(i % 4 == 0), late=(i % 3 == 1)))
         # sample indices beyond 2^31: the stream is preceded by one leading chunk of `skip` samples
         for i in range(40 if quick else 400):
             skip = 2 ** rng.choice([31, 31, 32, 33, 40]) + rng.randint(-3, 10 ** 6)
-            c = self._random_case(rng, big=False, skip=skip)
+            c = self._random_case(rng, big=False, skip=skip, late=(i % 3 == 0))
             c['kind'] = 'beyond-2^31'
             yield self._decorate_light(rng, c)
         for i in range(2 if quick else 12):
@@ -585,6 +724,7 @@ class C05(Spec):
         yield from self._malformed_cases(rng, 400 if quick else 3000)
         if not quick:
             yield from self._exhaustive_cases()
+            yield from self._exhaustive_late_cases()
 
     # ------------------------------------------------------------------ ops
     def _schedule(self, case):
@@ -593,12 +733,24 @@ class C05(Spec):
         reqs = [[] for _ in range(n)]
         rems = [[] for _ in range(n)]
         for i, r in enumerate(case['reqs']):
-            reqs[r['j']].append(i)
+            if not r.get('late'):
+                reqs[r['j']].append(i)
         for rm in case['rems']:
             rems[rm['j']].append(rm['r'])
         sc = case['sc']
         complete = [(sc is None) or (j >= sc) for j in range(n)]
         return reqs, rems, complete
+
+    @staticmethod
+    def _late_schedule(case):
+        """Per call: the requests that the consumer (`target`) appends to `queue` when it is handed the batch of
+        that call - a consumer that schedules the next epoch on receipt of one.  They are posted iff the call
+        delivers at least one epoch, stay in the queue over that call's done test and are taken in by the next call."""
+        late = [[] for _ in case['parts']]
+        for i, r in enumerate(case['reqs']):
+            if r.get('late'):
+                late[r['j']].append(i)
+        return late
 
     @staticmethod
     def _ghost_schedule(case):
@@ -628,15 +780,17 @@ class C05(Spec):
         keys = 1 if case['nd'].startswith('pd') else 0
         lines = [f'new {buffer_samples(case)} {keys}']
         reqs, rems, complete = self._schedule(case)
+        late = self._late_schedule(case)
         ghosts = self._ghost_schedule(case)
         observable = not (case.get('rep') or {}).get('no_cb')       # without a callback nothing can be seen firing
         tlb = 0
+
+        def fmt(i):
+            r = case['reqs'][i]
+            s, ln = conv(case, r)
+            return f"{ids[(r['t0'], r.get('key'))]}:{s}:{ln}:{r['mid']}"
         for j, n in enumerate(case['parts']):
-            rq = []
-            for i in reqs[j]:
-                r = case['reqs'][i]
-                s, ln = conv(case, r)
-                rq.append(f"{ids[(r['t0'], r.get('key'))]}:{s}:{ln}:{r['mid']}")
+            rq = [fmt(i) for i in reqs[j]]
             rm = []
             for i in rems[j]:
                 r = case['reqs'][i]
@@ -644,7 +798,11 @@ class C05(Spec):
             for gi in ghosts[j]:
                 g = case['ghosts'][gi]
                 rm.append(str(ids[(g['t0'], g.get('key'))]))
-            lines.append(f"data {tlb}:{n} {','.join(rq) or '-'} {','.join(rm) or '-'} {1 if (complete[j] and observable) else 0}")
+            line = f"data {tlb}:{n} {','.join(rq) or '-'} {','.join(rm) or '-'} {1 if (complete[j] and observable) else 0}"
+            if late[j]:
+                # 5th field: posted by `target` iff this call hands it a batch (the driver decides)
+                line += ' ' + ','.join(fmt(i) for i in late[j])
+            lines.append(line)
             tlb += n
         return lines
 
@@ -754,10 +912,19 @@ class C05(Spec):
             e = Ex()
             e.cfg, e.q, e.rq, e.got, e.done = cfg, deque(), deque(), [], []
             e.sc = None if case['sc'] is None else Event()
+            e.posted, e.late_infos = set(), {}
 
             def target(x, e=e):
                 is_pd = isinstance(x, P.PipelineData)
                 e.got.append((np.array(np.asarray(x)), is_pd, copy.deepcopy(x.metadata) if is_pd else None))
+                # the consumer schedules further epochs when it is handed a batch: re-entrant append to `queue`
+                if cur['j'] is not None:
+                    for i in late[cur['j']]:
+                        if i not in e.posted:
+                            e.posted.add(i)
+                            info = self._make_info(case, case['reqs'][i])
+                            e.late_infos.setdefault(cur['j'], []).append(info)
+                            e.q.append(info)
                 if clobber:
                     # the consumer owns what it was handed: overwrite it in place
                     if np.asarray(x).flags.writeable:
@@ -765,12 +932,15 @@ class C05(Spec):
                     if is_pd:
                         for md in (x.metadata if isinstance(x.metadata, list) else [x.metadata]):
                             md.clear()
-            e.ex = self._make_extractor(P, cfg, e.q, e.rq, target, lambda e=e: e.done.append(1), e.sc)
+            # the callback notes how many batches had been handed over when it fired
+            e.ex = self._make_extractor(P, cfg, e.q, e.rq, target, lambda e=e: e.done.append(len(e.got)), e.sc)
             e.out = ['ok']
             e.dead = False
             exs.append(e)
 
         flags = set()
+        late = self._late_schedule(case)
+        cur = {'j': None}
         if H:
             shape = stream.shape[:-1] + (H,)
             z = np.broadcast_to(np.zeros((), dtype=stream.dtype), shape)     # no memory behind it
@@ -792,6 +962,7 @@ class C05(Spec):
             rinfos = [self._make_info(case, case['reqs'][i], removal=True) for i in rems[j]]
             rinfos += [self._make_info(case, case['ghosts'][gi], removal=True) for gi in ghosts[j]]
             chunk = self._chunk(P, case, stream, tlb, n)
+            cur['j'] = j
             for e in exs:
                 e.q.extend(infos)                    # the same dict objects for every consumer
                 e.rq.extend(rinfos)
@@ -811,6 +982,8 @@ class C05(Spec):
                     items.extend(self._canon(snap, annotated, nd, ids, case))
                 items.sort()
                 e.out.append(f"ok {';'.join(items) or '-'} done={len(e.done) - n_done}")
+                if any(at < len(e.got) for at in e.done[n_done:]):
+                    flags.add('EPOCH-HANDED-OVER-AFTER-DONE-CALLBACK')
             if annotated and (chunk.metadata != {'src': 1} or chunk.channel != self._channels(case)):
                 flags.add('CHUNK-ANNOTATION-MODIFIED')
             if case.get('mut_info'):
@@ -821,6 +994,10 @@ class C05(Spec):
                     info['key'] = 'gone'
                 for info in rinfos:
                     info.clear()
+                for e in exs:                         # ... and the consumer those it had posted, once consumed
+                    for info in e.late_infos.get(j - 1, []):
+                        info.clear()
+                        info['t0'] = -1.0
             tlb += n
         if not np.array_equal(stream, pristine):
             flags.add('INPUT-MODIFIED')
@@ -947,12 +1124,13 @@ class C05(Spec):
             lens.add(n)
             if s < 0 or n < 0 or not (0 <= r['j'] < len(case['parts'])):
                 return False
-            if oldest_start(case['parts'], B, r['j']) > s:
+            ja = arrival(r)
+            if ja < len(case['parts']) and oldest_start(case['parts'], B, ja) > s:
                 return False
         if len(lens) > 1:
             return False
         for rm in case['rems']:
-            if rm['j'] < reqs[rm['r']]['j']:
+            if rm['j'] < arrival(reqs[rm['r']]):
                 return False
         return True
 
@@ -970,6 +1148,8 @@ class C05(Spec):
     def _oracle_one(self, case, out, head):
         if not self.in_domain(case):
             return None
+        if 'EPOCH-HANDED-OVER-AFTER-DONE-CALLBACK' in head:
+            return 'empty_queue_cb fired before the epochs completed by the same call were handed to the target'
         if head != 'ok':
             return f'the caller\'s data did not come back unmodified: {head}'
         calls = out[1:]
@@ -991,21 +1171,31 @@ class C05(Spec):
         for j in range(len(parts)):
             for i in rems[j]:
                 first_rem.setdefault(i, j)
+        # a request of the consumer (`late`) was made iff the consumer was handed a batch in that call
+        made = [not r.get('late') or bool(deliv[r['j']]) for r in case['reqs']]
         # expectation per request
-        must, never = [], []
+        must, never, limbo = [], [], []
         for i, r in enumerate(case['reqs']):
+            if not made[i]:
+                continue
             s, n = conv(case, r)
             cells = 'E' if n == 0 else f'{s}+{n}'
             item = f"k{ids[(r['t0'], r.get('key'))]}t{r['mid']}={cells}" if annotated else cells
             ls = last_sample_call(parts, s, n)
-            c = completion_call(parts, r['j'], s, n)
+            ja = arrival(r)
+            c = completion_call(parts, ja, s, n)
             rj = first_rem.get(i)
-            if ls is None:
+            if ja >= len(parts):
+                never.append((i, item, 'the consumer posted it during the last call: it is still in the queue'))
+            elif ls is None:
                 never.append((i, item, 'its samples never arrived'))
             elif rj is not None and rj <= ls:
                 never.append((i, item, f'it was removed at call {rj}, its last sample arrived at call {ls}'))
             elif rj is not None and rj <= c:
-                pass        # removed between last sample and delivery (look-back intake): the text demands nothing
+                # removed between last sample and delivery (look-back intake): the text demands nothing - but when the
+                # consumer posted it, it sat in the queue during the done test of that call
+                if r.get('late'):
+                    limbo.append((i, item))
             else:
                 must.append((i, item, c))
         flat = [(j, it) for j, its in enumerate(deliv) for it in its]
@@ -1020,9 +1210,11 @@ class C05(Spec):
             optional = [it for _, it, _ in never if False]
             maybe = []
             for i, r in enumerate(case['reqs']):
+                if not made[i] or arrival(r) >= len(parts):
+                    continue
                 s, n = conv(case, r)
                 rj, ls = first_rem.get(i), last_sample_call(parts, s, n)
-                c = completion_call(parts, r['j'], s, n)
+                c = completion_call(parts, arrival(r), s, n)
                 if ls is not None and rj is not None and ls < rj <= c:
                     maybe.append('E' if n == 0 else f'{s}+{n}')
             rest = list(have)
@@ -1045,6 +1237,8 @@ class C05(Spec):
             expected_keys = {item for _, item, _ in must}
             tolerated = set()
             for i, r in enumerate(case['reqs']):
+                if not made[i]:
+                    continue
                 s, n = conv(case, r)
                 tolerated.add(f"k{ids[(r['t0'], r.get('key'))]}t{r['mid']}=" + ('E' if n == 0 else f'{s}+{n}'))
             for it in allitems:
@@ -1060,22 +1254,36 @@ class C05(Spec):
         for j, its in enumerate(deliv):
             for it in its:
                 delivered_by.setdefault(it, []).append(j)
-        cond_calls = []
+        # (a request posted by the consumer during call j is pending from that call on: it sits in the queue)
+        cond_calls, why_not = [], {}
         for j in range(len(parts)):
-            pend = False
+            pend = None
             for i, item, c in must:
                 if case['reqs'][i]['j'] <= j and c > j:
-                    pend = True
+                    where = 'in the queue' if arrival(case['reqs'][i]) > j else 'being captured'
+                    pend = pend or f'request {i} ({item}) was still pending ({where}); its epoch was due at call {c}, after the callback'
             for i, item, why in never:
                 r = case['reqs'][i]
                 rj = first_rem.get(i)
                 if r['j'] <= j and (rj is None or rj > j):
-                    pend = True
+                    where = 'in the queue' if arrival(r) > j else 'being captured'
+                    pend = pend or f'request {i} ({item}) was still pending ({where})'
+            for i, item in limbo:
+                if case['reqs'][i]['j'] == j:
+                    pend = pend or f'request {i} ({item}) was still pending (in the queue)'
             if complete[j] and not pend:
                 cond_calls.append(j)
+            else:
+                why_not[j] = pend or 'the source was not complete'
         for j, f in enumerate(fired):
             if f and j not in cond_calls:
-                return f'empty_queue_cb fired at call {j} although a request was still pending or the source was not complete'
+                return f'empty_queue_cb fired at call {j} although {why_not[j]}'
+        # nothing that had been requested by then is delivered after the callback
+        for jf, f in enumerate(fired):
+            if f:
+                for i, item, c in must:
+                    if case['reqs'][i]['j'] <= jf < c and any(item in its for its in deliv[jf + 1:]):
+                        return f'epoch {item} of request {i} was delivered after empty_queue_cb had fired (call {jf})'
         if cond_calls and sum(fired) != 1:
             return f'empty_queue_cb never fired although nothing was pending and the source was complete after call {cond_calls[0]}'
         return None
@@ -1093,10 +1301,20 @@ class C05(Spec):
             for r in case['reqs']:
                 r = dict(r)
                 s, n = conv(c, r)
-                r['j'] = rng.randint(0, last_admissible(c['parts'], B, max(s, 0)))
+                la = last_admissible(c['parts'], B, max(s, 0))
+                if r.get('late'):
+                    # posted during call j, taken in by call j + 1 (or during the last call: never taken in)
+                    if la >= 1:
+                        r['j'] = rng.randint(0, la - 1)
+                    else:
+                        r['j'] = len(c['parts']) - 1
+                else:
+                    r['j'] = rng.randint(0, la)
                 reqs.append(r)
             c['reqs'] = reqs
-            c['rems'] = [{'r': rm['r'], 'j': rng.randint(reqs[rm['r']]['j'], len(c['parts']) - 1)} for rm in case['rems']]
+            last = len(c['parts']) - 1
+            c['rems'] = [{'r': rm['r'], 'j': rng.randint(min(arrival(reqs[rm['r']]), last), last)} for rm in case['rems']
+                         if arrival(reqs[rm['r']]) <= last]
             if case.get('ghosts'):
                 c['ghosts'] = [dict(g, j=rng.randint(0, len(c['parts']) - 1)) for g in case['ghosts']]
             if case['kind'] == 'capture':
@@ -1119,6 +1337,7 @@ class C05(Spec):
         # merge two adjacent chunks when nothing is scheduled on the second
         parts = case['parts']
         used = {r['j'] for r in case['reqs']} | {rm['j'] for rm in case['rems']} | {g['j'] for g in case.get('ghosts') or []}
+        used |= {arrival(r) for r in case['reqs']}
         for j in range(1, len(parts)):
             if j in used or (case['sc'] is not None and case['sc'] == j):
                 continue
